@@ -160,6 +160,13 @@ class Translator:
                 r = f"(XPair {T(x)} {r})"
             return r
         if isinstance(e, ast.IfExp):
+            src = ast.unparse(e.test)
+            if src in self.assume:
+                self.assume[src] += 1
+                return T(e.body)
+            if src in getattr(self, "assume_f", {}):
+                self.assume_f[src] += 1
+                return T(e.orelse)
             return f"(XPair {T(e.body)} {T(e.orelse)})"
         if isinstance(e, (ast.ListComp, ast.GeneratorExp)):
             if len(e.generators) != 1 or e.generators[0].is_async:
@@ -471,3 +478,569 @@ def translate_function(source, fname, param_signs, assume_true=(), assume_false=
         if isinstance(n, ast.FunctionDef) and n.name == fname:
             return Translator(n, param_signs, assume_true, assume_false).run()
     raise Untranslatable(f"function {fname} not found")
+
+
+# ============================================================================= round 6: structured (flow-sensitive) translation -> Model/NonnegFlow.v
+class FlowTranslator(Translator):
+    """Python body -> `cmd` of Model/NonnegFlow.v: one model variable per Python name, the control structure is kept (sequence, if / try as choice,
+    loops with break, return); closures and explicitly supplied callees (module functions, methods) are INLINED as blocks: parameters are assigned
+    from the arguments, `return e` assigns the result variable(s) and leaves the block.  Extra trusted conventions:
+    * a `try` body may be interrupted anywhere: the handlers start from the body with every statement made optional;
+    * names of an inlined callee that are parameters or assigned in it are private to that instance; other names refer to the enclosing function
+      (closure) or, for module functions / methods, to unknown module-level objects;
+    * `continue`, `return` inside a loop of an inlined callee, recursion: untranslatable."""
+
+    def __init__(self, fdef, param_signs, assume_true=(), assume_false=(), callees=None, ret_arity=None, split=None):
+        super().__init__(fdef, param_signs, assume_true, assume_false)
+        # split = {list variable: guard}: the list holds one array per mode; the guard `i in S` (source text) selects the DECLARED modes.  The variable is
+        # modelled by two bags, X@D (arrays of declared modes) and X@U (the others); X[i] under the guard reads / writes X@D, under its negation X@U,
+        # elsewhere both; cp_normalize((w, X)) is the declared-modes contract c_cpnorm_D; a returned X means X@D (the property speaks of declared modes)
+        self.split = dict(split or {})
+        self.guard_ctx = {}                      # guard source -> True / False while translating a branch of `if <guard>:`
+        self.in_return = False
+        self.callees = dict(callees or {})       # call name (last component) -> (FunctionDef, is_closure)
+        self.scopes = []                         # stack of (prefix, locals, is_closure)
+        self.ninline = 0
+        self.depth = 0
+        self.globals_used = set()
+        self.prologue = []                       # commands produced while translating the expression of the current statement
+        self.ret_stack = []
+        self.loop_depth = 0
+        self.inlined_results = {}
+        self.def_env = {}
+
+    # ---- names
+    def resolve(self, name):
+        for prefix, locs, closure in reversed(self.scopes):
+            if name in locs:
+                return prefix + name
+            if not closure:
+                self.globals_used.add("$g$" + name)
+                return "$g$" + name
+        return name
+
+    def nid(self, name):
+        return self.vid(self.resolve(name), "all")
+
+    def split_ids(self, name):
+        return self.vid(self.resolve(name) + "@D", "all"), self.vid(self.resolve(name) + "@U", "all")
+
+    def split_part(self, sub_node):
+        """which part of a split list X the subscript X[i] denotes: 'D', 'U' or None (unknown)"""
+        g = self.split[sub_node.value.id]
+        gv = g.split(" in ")[0].strip()
+        if isinstance(sub_node.slice, ast.Name) and sub_node.slice.id == gv and g in self.guard_ctx:
+            return "D" if self.guard_ctx[g] else "U"
+        return None
+
+    def tx(self, e, cur=None, sub=None):
+        sub = sub or {}
+        if not self.scopes and isinstance(e, ast.Subscript) and isinstance(e.value, ast.Name) and e.value.id in self.split and e.value.id not in sub:
+            d, u = self.split_ids(e.value.id)
+            part = self.split_part(e)
+            return f"(XSub (XVar {d}%nat))" if part == "D" else f"(XSub (XVar {u}%nat))" if part == "U" else f"(XSub (XPair (XVar {d}%nat) (XVar {u}%nat)))"
+        if not self.scopes and isinstance(e, ast.Name) and e.id in self.split and e.id not in sub:
+            d, u = self.split_ids(e.id)
+            return f"(XVar {d}%nat)" if self.in_return else f"(XPair (XVar {d}%nat) (XVar {u}%nat))"
+        if not self.scopes and isinstance(e, ast.Call) and _dotted(e.func).split(".")[-1] == "cp_normalize" and len(e.args) == 1 \
+                and isinstance(e.args[0], ast.Tuple) and len(e.args[0].elts) == 2 and isinstance(e.args[0].elts[1], ast.Name) \
+                and e.args[0].elts[1].id in self.split:
+            d, u = self.split_ids(e.args[0].elts[1].id)
+            return f"(XCall FCpNormalize (XPair {self.tx(e.args[0].elts[0])} (XVar {d}%nat)))"      # weights and declared factors of the result
+        if isinstance(e, ast.Name) and e.id not in sub and e.id not in ("None", "True", "False"):
+            return f"(XVar {self.nid(e.id)}%nat)"
+        if isinstance(e, ast.Call):
+            short = _dotted(e.func).split(".")[-1]
+            if short in self.callees and not any(k.arg is None for k in e.keywords) and not any(isinstance(x, ast.Starred) for x in e.args):
+                names = self.inline(short, e)
+                r = "XNonneg"
+                for n in reversed(names):
+                    r = f"(XPair (XVar {self.vid(n, 'all')}%nat) {r})"
+                return r if len(names) != 1 else f"(XVar {self.vid(names[0], 'all')}%nat)"
+        return super().tx(e, {}, sub)
+
+    # ---- inlining
+    def inline(self, short, call):
+        fdef, closure = self.callees[short]
+        if self.depth > 3:
+            raise Untranslatable("inlining depth (recursion?) at " + short)
+        a = fdef.args
+        if a.vararg or a.kwarg or a.posonlyargs:
+            raise Untranslatable("signature of inlined callee " + short)
+        params = [p.arg for p in a.args + a.kwonlyargs]
+        args = list(call.args)
+        if isinstance(call.func, ast.Attribute) and params and params[0] == "self":
+            args = [call.func.value] + args          # method call: the receiver is `self`
+        bind = {}
+        for p, x in zip(params, args):
+            bind[p] = x
+        for k in call.keywords:
+            if k.arg not in params:
+                raise Untranslatable(f"keyword {k.arg} of inlined callee {short}")
+            bind[k.arg] = k.value
+        defaults = dict(zip([p.arg for p in a.args][len(a.args) - len(a.defaults):], a.defaults))
+        defaults.update({p.arg: d for p, d in zip(a.kwonlyargs, a.kw_defaults) if d is not None})
+        self.ninline += 1
+        prefix = f"{short}${self.ninline}$"
+        cmds = []
+        # arguments are evaluated in the caller's scope
+        vals = {p: self.tx(bind[p]) if p in bind else (self.tx(defaults[p]) if p in defaults else "XAny") for p in params}
+        locs = set(params) | _assigned_names(fdef)
+        arity = self.callee_arity(fdef)
+        ret_names = [f"{prefix}ret{i}" for i in range(arity)]
+        self.scopes.append((prefix, locs, closure))
+        self.depth += 1
+        try:
+            for p in params:
+                cmds.append(("assign", [self.nid(p)], vals[p]))
+                if p in bind:
+                    for m in self.alias_names(bind[p]):
+                        self.union(self.resolve(p), m if not self.scopes[:-1] else m)
+            self.ret_stack.append((ret_names, arity))
+            saved_loops, self.loop_depth = self.loop_depth, 0
+            body = self.fblock(fdef.body)
+            self.loop_depth = saved_loops
+            self.ret_stack.pop()
+        finally:
+            self.depth -= 1
+            self.scopes.pop()
+        self.prologue.append(("block", ("seq", cmds + [body])))
+        self.inlined_results[id(call)] = ret_names
+        return ret_names
+
+    TUPLE_CTORS = ("CPTensor", "TuckerTensor", "Parafac2Tensor")
+
+    def tuple_elts(self, v, env=None):
+        """the components of a tuple-like expression: a tuple, CPTensor / TuckerTensor / Parafac2Tensor of a tuple, or a name bound to one by the
+        immediately preceding straight-line statements of the same block"""
+        if isinstance(v, ast.Tuple):
+            return list(v.elts)
+        if isinstance(v, ast.Call) and _dotted(v.func).split(".")[-1] in self.TUPLE_CTORS and len(v.args) == 1 and isinstance(v.args[0], ast.Tuple):
+            return list(v.args[0].elts)
+        if isinstance(v, ast.Call) and _dotted(v.func).split(".")[-1] in self.KNOWN_TUPLES:
+            return [ast.Constant(value=c) for c in self.KNOWN_TUPLES[_dotted(v.func).split(".")[-1]]]
+        if isinstance(v, ast.Name) and env is not None and v.id in env:
+            return self.tuple_elts(env[v.id], None)
+        return None
+
+    # library facts (trusted): tensorly.random.random_parafac2 returns (unit weights, factors, projections): 0 stands for "entrywise >= 0", -1 for "unknown"
+    KNOWN_TUPLES = {"random_parafac2": [0, -1, -1]}
+
+    def callee_arity(self, fdef):
+        """n when every `return` of the callee returns an n-component tuple-like value (resolved syntactically), else 1"""
+        ars = set()
+        def walk(body):
+            env = {}
+            for st in body:
+                if isinstance(st, ast.Return):
+                    el = self.tuple_elts(st.value, env) if st.value is not None else None
+                    ars.add(len(el) if el else 1)
+                elif isinstance(st, ast.Assign) and len(st.targets) == 1 and isinstance(st.targets[0], ast.Name):
+                    env.pop(st.targets[0].id, None)
+                    if self.tuple_elts(st.value, env):
+                        env[st.targets[0].id] = st.value
+                elif isinstance(st, ast.If) and ast.unparse(st.test) in self.assume:
+                    walk(st.body)
+                elif isinstance(st, ast.If) and ast.unparse(st.test) in self.assume_f:
+                    walk(st.orelse)
+                else:
+                    for nm in _assigned_names(st):
+                        env.pop(nm, None)
+                    for fld in ("body", "orelse", "finalbody"):
+                        if getattr(st, fld, None):
+                            walk(getattr(st, fld))
+                    for h in getattr(st, "handlers", []) or []:
+                        walk(h.body)
+        walk(fdef.body)
+        return ars.pop() if len(ars) == 1 else 1
+
+    # ---- statements
+    def with_prologue(self, build):
+        """translate one simple statement; inlined calls inside its expressions run first"""
+        saved, self.prologue = self.prologue, []
+        c = build()
+        pro, self.prologue = self.prologue, saved
+        return ("seq", pro + [c]) if pro else c
+
+    def fassign(self, target, value_sx, value_node):
+        if isinstance(target, ast.Starred):
+            raise Untranslatable("starred assignment target")
+        if isinstance(target, (ast.Tuple, ast.List)):
+            comps = None
+            n = len(target.elts)
+            tnames = {m.id for t in target.elts for m in ast.walk(t) if isinstance(m, ast.Name)}
+            if isinstance(value_node, ast.Call) and id(value_node) in self.inlined_results and len(self.inlined_results[id(value_node)]) == n:
+                comps = [(f"(XVar {self.vid(r, 'all')}%nat)", None) for r in self.inlined_results[id(value_node)]]
+            else:
+                el = self.tuple_elts(value_node, self.def_env) if value_node is not None else None
+                if el and len(el) == n and not (tnames & {m.id for x in el for m in ast.walk(x) if isinstance(m, ast.Name)}):
+                    comps = [(self.tx(x), x) for x in el]
+            if comps is not None:
+                return ("seq", [self.fassign(t, sx, node) for t, (sx, node) in zip(target.elts, comps)])
+            return ("seq", [self.fassign(t, f"(XSub {value_sx})", value_node) for t in target.elts])
+        if not self.scopes and isinstance(target, ast.Subscript) and isinstance(target.value, ast.Name) and target.value.id in self.split:
+            d, u = self.split_ids(target.value.id)
+            part = self.split_part(target)
+            ups = [("aupdate_id", d, value_sx)] if part == "D" else [("aupdate_id", u, value_sx)] if part == "U" else [("aupdate_id", d, value_sx), ("aupdate_id", u, value_sx)]
+            return ("seq", ups)
+        if not self.scopes and isinstance(target, ast.Name) and target.id in self.split:
+            d, u = self.split_ids(target.id)
+            is_norm = isinstance(value_node, ast.Call) and _dotted(value_node.func).split(".")[-1] == "cp_normalize"
+            return ("seq", [("assign", [d], value_sx), ("assign", [u], "XAny" if is_norm else value_sx)])
+        if isinstance(target, (ast.Subscript, ast.Attribute)):
+            b = target
+            while isinstance(b, (ast.Subscript, ast.Attribute)):
+                b = b.value
+            if not isinstance(b, ast.Name):
+                raise Untranslatable("update of a non-name base")
+            if b.id in self.split and not self.scopes:
+                raise Untranslatable("update of a split list through an attribute / nested subscript")
+            if value_node is not None:
+                for n in self.alias_names(value_node):
+                    self.union(self.resolve(b.id), self.resolve(n))
+            return ("aupdate", self.resolve(b.id), value_sx)
+        if not isinstance(target, ast.Name):
+            raise Untranslatable("assignment target " + ast.dump(target)[:60])
+        if value_node is not None:
+            for m in self.alias_names(value_node):
+                self.union(self.resolve(target.id), self.resolve(m))
+        return ("assign", [self.nid(target.id)], value_sx)
+
+    def fblock(self, body, inherit=None):
+        """def_env: name -> the expression last assigned to it by a straight-line statement that dominates the current point (no later assignment)"""
+        saved = self.def_env
+        self.def_env = dict(inherit if inherit is not None else {})
+        out = []
+        for st in body:
+            out.append(self.fstmt(st))
+            self.note_defs(st)
+        self.def_env = saved
+        return ("seq", out)
+
+    def note_defs(self, st):
+        spliced = isinstance(st, ast.If) and (ast.unparse(st.test) in self.assume or ast.unparse(st.test) in self.assume_f)
+        if spliced:
+            return                                  # its statements were translated in this block's environment (see fstmt)
+        for nm in _assigned_names(st):
+            self.def_env.pop(nm, None)
+        if isinstance(st, ast.Assign) and len(st.targets) == 1 and isinstance(st.targets[0], ast.Name):
+            used = {n.id for n in ast.walk(st.value) if isinstance(n, ast.Name)}
+            if st.targets[0].id not in used:
+                self.def_env[st.targets[0].id] = st.value
+        # a later assignment to a name USED by a recorded expression invalidates the record
+        assigned = _assigned_names(st)
+        for k in [k for k, v in self.def_env.items() if assigned & {n.id for n in ast.walk(v) if isinstance(n, ast.Name)} and not (isinstance(st, ast.Assign) and k in assigned)]:
+            self.def_env.pop(k, None)
+
+    def child_env(self, st):
+        inside = _assigned_names(st)
+        return {k: v for k, v in self.def_env.items() if k not in inside and not (inside & {n.id for n in ast.walk(v) if isinstance(n, ast.Name)})}
+
+    def resolve_def(self, e, depth=0):
+        while isinstance(e, ast.Name) and e.id in self.def_env and depth < 5:
+            e = self.def_env[e.id]; depth += 1
+        return e
+
+    def covers_all(self, it, Y):
+        """the iteration `it` runs over every index of the list Y: range(len(Y)), or range(<number of modes of the data tensor>) for a list that has
+        one entry per mode (trusted: the factor lists of a decomposition have one entry per mode)"""
+        it = self.resolve_def(it)
+        if not (isinstance(it, ast.Call) and _dotted(it.func) == "range" and len(it.args) == 1 and not it.keywords):
+            return False
+        n = self.resolve_def(it.args[0])
+        if isinstance(n, ast.Call) and _dotted(n.func) == "len" and len(n.args) == 1 and isinstance(n.args[0], ast.Name) and n.args[0].id == Y:
+            return True
+        if isinstance(n, ast.Call) and _dotted(n.func).split(".")[-1] == "ndim" and len(n.args) == 1:
+            return True
+        return False
+
+    def map_loop(self, s):
+        """for i in <all indices of Y>: Y[i] = E(Y[i])  ->  Z = []; loop { Z += E(sub-bag of Y) }; Y = Z"""
+        if not (isinstance(s.target, ast.Name) and not s.orelse and len(s.body) == 1 and isinstance(s.body[0], ast.Assign)):
+            return None
+        a = s.body[0]
+        if len(a.targets) != 1:
+            return None
+        t = a.targets[0]
+        i = s.target.id
+        if not (isinstance(t, ast.Subscript) and isinstance(t.value, ast.Name) and isinstance(t.slice, ast.Name) and t.slice.id == i):
+            return None
+        Y = t.value.id
+        if not self.covers_all(s.iter, Y):
+            return None
+        ok_reads = {id(n.value) for n in ast.walk(a.value) if isinstance(n, ast.Subscript) and isinstance(n.value, ast.Name) and n.value.id == Y
+                    and isinstance(n.slice, ast.Name) and n.slice.id == i}
+        if any(isinstance(n, ast.Name) and n.id == Y and id(n) not in ok_reads for n in ast.walk(a.value)):
+            return None
+        self.nmap = getattr(self, "nmap", 0) + 1
+        z = self.vid(self.resolve(Y) + f"$map{self.nmap}", "all")
+        def build():
+            return ("aupdate_id", z, self.tx(a.value))
+        self.loop_depth += 1
+        step = self.with_prologue(build)
+        self.loop_depth -= 1
+        head = ("assign", [self.nid(i)], "XNonneg")
+        return ("seq", [("assign", [z], "XNonneg"), ("loop", ("seq", [head, step])), ("assign", [self.nid(Y)], f"(XSub (XVar {z}%nat))")])
+
+    def partial(self, c):
+        k = c[0]
+        if k == "seq":
+            return ("seq", [self.partial(x) for x in c[1]])
+        if k == "if":
+            return ("if", self.partial(c[1]), self.partial(c[2]))
+        if k in ("loop", "block"):
+            return (k, self.partial(c[1]))
+        if k == "skip":
+            return c
+        return ("if", c, ("skip",))
+
+    def fstmt(self, s):
+        if isinstance(s, ast.Assign):
+            def build():
+                v = self.tx(s.value)
+                return ("seq", [self.fassign(t, v, s.value) for t in s.targets])
+            return self.with_prologue(build)
+        if isinstance(s, ast.AnnAssign):
+            if s.value is None:
+                return ("skip",)
+            return self.with_prologue(lambda: self.fassign(s.target, self.tx(s.value), s.value))
+        if isinstance(s, ast.AugAssign):
+            def build():
+                load = ast.parse(ast.unparse(s.target), mode="eval").body
+                v = self.tx(ast.BinOp(left=load, op=s.op, right=s.value))
+                if isinstance(s.target, ast.Name):
+                    return ("seq", [("aupdate", self.resolve(s.target.id), v), ("assign", [self.nid(s.target.id)], v)])
+                return self.fassign(s.target, v, None)
+            return self.with_prologue(build)
+        if isinstance(s, ast.For):
+            m = self.map_loop(s)
+            if m is not None:
+                return m
+            def build():
+                return self.fassign(s.target, f"(XSub {self.tx(s.iter)})", None)
+            head = self.with_prologue(build)
+            env = self.child_env(s)
+            self.loop_depth += 1
+            loop = ("loop", ("seq", [head, self.fblock(s.body, env)]))
+            self.loop_depth -= 1
+            return ("seq", [loop, ("if", self.fblock(s.orelse, env), ("skip",))]) if s.orelse else loop
+        if isinstance(s, ast.While):
+            env = self.child_env(s)
+            self.loop_depth += 1
+            loop = ("loop", self.fblock(s.body, env))
+            self.loop_depth -= 1
+            return ("seq", [loop, ("if", self.fblock(s.orelse, env), ("skip",))]) if s.orelse else loop
+        if isinstance(s, ast.If):
+            src = ast.unparse(s.test)
+            if src in self.assume or src in self.assume_f:      # spliced into the current block (shares its def_env)
+                taken = s.body if src in self.assume else s.orelse
+                (self.assume if src in self.assume else self.assume_f)[src] += 1
+                out = []
+                for st in taken:
+                    out.append(self.fstmt(st))
+                    self.note_defs(st)
+                return ("seq", out)
+            env = self.child_env(s)
+            if src in self.split.values() and not self.scopes:
+                gv = src.split(" in ")[0].strip()
+                if gv in _assigned_names(s):
+                    raise Untranslatable("the guard variable of a split list is assigned inside the guarded branches")
+                self.guard_ctx[src] = True
+                b1 = self.fblock(s.body, env)
+                self.guard_ctx[src] = False
+                b2 = self.fblock(s.orelse, env)
+                del self.guard_ctx[src]
+                return ("if", b1, b2)
+            return ("if", self.fblock(s.body, env), self.fblock(s.orelse, env))
+        if isinstance(s, ast.With):
+            pre = [("assign", [self.nid(n) for n in self.target_names(it.optional_vars)], "XAny") for it in s.items if it.optional_vars is not None]
+            return ("seq", pre + [self.fblock(s.body, self.child_env(s))])
+        if isinstance(s, ast.Try):
+            env = self.child_env(s)
+            body = self.fblock(s.body, env)
+            ok = ("seq", [body, self.fblock(s.orelse, env)])
+            hs = ("skip",)
+            for h in s.handlers:
+                hb = self.fblock(h.body, env)
+                if h.name:
+                    hb = ("seq", [("assign", [self.nid(h.name)], "XAny"), hb])
+                hs = ("if", hb, hs)
+            c = ("if", ok, ("seq", [self.partial(body), hs])) if s.handlers else ok
+            return ("seq", [c, self.fblock(s.finalbody, env)])
+        if isinstance(s, ast.Return):
+            def build():
+                v = s.value
+                if self.ret_stack:
+                    names, arity = self.ret_stack[-1]
+                    if self.loop_depth > 0:
+                        raise Untranslatable("return inside a loop of an inlined callee at line " + str(getattr(s, "lineno", "?")))
+                    el = self.tuple_elts(v, self.def_env) if v is not None else None
+                    if v is None:
+                        cs = [("assign", [self.vid(n, "all")], "XNonneg") for n in names]
+                    elif arity > 1:
+                        if not el or len(el) != arity:
+                            raise Untranslatable("return arity at line " + str(getattr(s, "lineno", "?")))
+                        cs = [("assign", [self.vid(n, "all")], self.tx(x)) for n, x in zip(names, el)]
+                    elif isinstance(v, ast.Tuple) and v.elts:
+                        cs = [("assign", [self.vid(names[0], "all")], self.tx(v.elts[0]))]      # mixed arities: the decomposition comes first
+                    else:
+                        cs = [("assign", [self.vid(names[0], "all")], self.tx(v))]
+                    return ("seq", cs + [("break",)])
+                if v is None:
+                    return ("return", "XNonneg")
+                if isinstance(v, ast.Tuple) and v.elts:
+                    v = v.elts[0]
+                self.returns.append(1)
+                self.in_return = True
+                r = self.resolve_def(v)
+                if isinstance(r, ast.Call) and _dotted(r.func).split(".")[-1] == "Parafac2Tensor" and len(r.args) == 1 and isinstance(r.args[0], ast.Tuple) \
+                        and len(r.args[0].elts) == 3:
+                    w_, f_, _p = r.args[0].elts      # the property speaks about the weights and the factors, not about the (orthogonal) projections
+                    out_ = ("return", f"(XPair {self.tx(w_)} {self.tx(f_)})")
+                    self.in_return = False
+                    return out_
+                if self.split and isinstance(r, ast.Call) and _dotted(r.func).split(".")[-1] in self.TUPLE_CTORS:
+                    v = r                               # CPTensor((weights, X)) bound to a name: the returned X is X@D
+                out_ = ("return", self.tx(v))
+                self.in_return = False
+                return out_
+            return self.with_prologue(build)
+        if isinstance(s, ast.Expr):
+            def build():
+                c = s.value
+                if isinstance(c, ast.Call) and isinstance(c.func, ast.Attribute):
+                    b = c.func.value
+                    while isinstance(b, (ast.Subscript, ast.Attribute)):
+                        b = b.value
+                    if isinstance(b, ast.Name) and c.func.attr in ("append", "extend", "insert") and c.args and isinstance(c.func.value, ast.Name):
+                        for n in self.alias_names(c.args[-1]):
+                            self.union(self.resolve(b.id), self.resolve(n))
+                        return ("aupdate", self.resolve(b.id), self.tx(c.args[-1]))
+                    if isinstance(b, ast.Name) and _dotted(c.func).split(".")[0] not in ("warnings", "tl", "T", "np", "tensorly"):
+                        return ("aupdate", self.resolve(b.id), "XAny")
+                return ("skip",)
+            return self.with_prologue(build)
+        if isinstance(s, ast.Break):
+            return ("break",)
+        if isinstance(s, ast.FunctionDef):
+            self.callees[s.name] = (s, True)          # a closure: inlined at its call sites (the latest definition seen)
+            return ("skip",)
+        if isinstance(s, (ast.Pass, ast.Raise, ast.Assert, ast.Import, ast.ImportFrom)):
+            return ("skip",)
+        raise Untranslatable(type(s).__name__ + " at line " + str(getattr(s, "lineno", "?")))
+
+    # ---- rendering
+    def render(self, c, classes):
+        k = c[0]
+        if k == "skip":
+            return "CSkip"
+        if k == "assign":
+            return f"(CAssign {nat_list(c[1])} {c[2]})"
+        if k == "aupdate_id":
+            return f"(CUpdate {c[1]}%nat {c[2]})"
+        if k == "aupdate":
+            ids = classes[self.find(c[1])]
+            r = None
+            for i in reversed(ids):
+                u = f"(CUpdate {i}%nat {c[2]})"
+                r = u if r is None else f"(CSeq {u} {r})"
+            return r
+        if k == "seq":
+            items = [self.render(x, classes) for x in c[1]]
+            items = [x for x in items if x != "CSkip"] or ["CSkip"]
+            r = items[-1]
+            for x in reversed(items[:-1]):
+                r = f"(CSeq {x} {r})"
+            return r
+        if k == "if":
+            return f"(CIf {self.render(c[1], classes)} {self.render(c[2], classes)})"
+        if k in ("loop", "block"):
+            return f"({'CLoop' if k == 'loop' else 'CBlock'} {self.render(c[1], classes)})"
+        if k == "break":
+            return "CBreak"
+        if k == "return":
+            return f"(CReturn {c[1]})"
+        raise KeyError(k)
+
+    def run(self):
+        for n in ast.walk(self.fdef):
+            if isinstance(n, (ast.AsyncFunctionDef, ast.Lambda, ast.ClassDef, ast.Global, ast.Nonlocal, ast.NamedExpr, ast.Delete, ast.Yield,
+                              ast.YieldFrom, ast.Await, ast.Continue)):
+                raise Untranslatable(type(n).__name__ + " at line " + str(getattr(n, "lineno", "?")))
+            if isinstance(n, ast.Call) and (any(k.arg == "out" for k in n.keywords) or _dotted(n.func) in ("exec", "eval", "setattr", "locals", "vars", "globals")):
+                raise Untranslatable("in-place / reflective call at line " + str(getattr(n, "lineno", "?")))
+        tree = self.fblock(self.fdef.body)
+        stale = [a for a, n in list(self.assume.items()) + list(self.assume_f.items()) if n == 0]
+        if stale:
+            raise Untranslatable("assumed test(s) not found in the source: " + "; ".join(stale))
+        if not self.returns:
+            raise Untranslatable("no return statement")
+        def names_of(c):
+            if c[0] == "aupdate":
+                self.vid(c[1], "all")
+            elif c[0] == "seq":
+                for x in c[1]:
+                    names_of(x)
+            elif c[0] == "if":
+                names_of(c[1]); names_of(c[2])
+            elif c[0] in ("loop", "block"):
+                names_of(c[1])
+        names_of(tree)
+        classes = {}
+        for (name, ver) in self.order:
+            classes.setdefault(self.find(name), []).append(self.vars[(name, ver)])
+        prog = self.render(tree, classes)
+        assigned = set()
+        def collect(c):
+            if c[0] == "assign":
+                assigned.update(c[1])
+            elif c[0] == "seq":
+                for x in c[1]:
+                    collect(x)
+            elif c[0] == "if":
+                collect(c[1]); collect(c[2])
+            elif c[0] in ("loop", "block"):
+                collect(c[1])
+        collect(tree)
+        updated = set()
+        def collect_u(c):
+            if c[0] == "aupdate":
+                updated.update(classes[self.find(c[1])])
+            elif c[0] == "seq":
+                for x in c[1]:
+                    collect_u(x)
+            elif c[0] == "if":
+                collect_u(c[1]); collect_u(c[2])
+            elif c[0] in ("loop", "block"):
+                collect_u(c[1])
+        collect_u(tree)
+        a0 = []
+        for (name, ver) in self.order:
+            i = self.vars[(name, ver)]
+            if name in self.params:
+                a0.append(self.param_signs.get(name, "SgAny"))
+            elif i not in assigned:
+                a0.append("SgAny")                 # a module-level name / never assigned: nothing is known
+            else:
+                a0.append("SgPos")                 # a local before its first assignment has no entries
+        return {"prog": prog, "a0": "[" + "; ".join(a0) + "]", "n_vars": len(a0), "n_stmts": prog.count("(CAssign") + prog.count("(CUpdate"),
+                "n_inlined": self.ninline, "unknown_calls": dict(self.unknown_calls)}
+
+
+def find_function(tree, fname, cls=None):
+    body = tree.body
+    if cls is not None:
+        body = [n for n in tree.body if isinstance(n, ast.ClassDef) and n.name == cls][0].body
+    for n in body:
+        if isinstance(n, ast.FunctionDef) and n.name == fname:
+            return n
+    raise Untranslatable(f"function {fname} not found")
+
+
+def translate_flow(source, fname, param_signs, assume_true=(), assume_false=(), callees=None, split=None):
+    """callees: {call name: (source text, function name, class name or None)} -> inlined"""
+    tree = ast.parse(source)
+    cs = {}
+    for k, (src, fn, cls) in (callees or {}).items():
+        cs[k] = (find_function(ast.parse(src), fn, cls), False)
+    return FlowTranslator(find_function(tree, fname), param_signs, assume_true, assume_false, cs, split=split).run()
